@@ -103,7 +103,11 @@ mutual
 end
 
 /-- how a function is written in the file -/
-inductive Wrap where | plain | method | arrow | asyncFn
+inductive Wrap where
+  | plain | method | arrow | asyncFn
+  | funcExpr | generator      -- TypeScript: `const f = function (a) {…}`, `function* f(a) {…}`
+  | underIf                   -- declared under a compound statement / in a module block: `if FLAG:` ⏎ def, `if (FLAG) { function … }`, `mod m { fn … }`
+  | inner                     -- one level further in: class in class (Python), namespace (TypeScript), trait default method (Rust)
   deriving DecidableEq, Repr, Inhabited
 
 structure Fn where
@@ -116,13 +120,21 @@ def renderFn (l : Lang) (f : Fn) : List String × Nat :=
   match l, f.wrap with
   | .py, .method => (["class C_" ++ f.name ++ ":", "    def " ++ f.name ++ "(self):"] ++ renderPyB 8 f.body, 1)
   | .py, .asyncFn => (["async def " ++ f.name ++ "():"] ++ renderPyB 4 f.body, 0)
+  | .py, .underIf => (["if FLAG_" ++ f.name ++ ":", "    def " ++ f.name ++ "():"] ++ renderPyB 8 f.body, 1)
+  | .py, .inner => (["class O_" ++ f.name ++ ":", "    class Inner:", "        def " ++ f.name ++ "(self):"] ++ renderPyB 12 f.body, 2)
   | .py, _ => (["def " ++ f.name ++ "():"] ++ renderPyB 4 f.body, 0)
   | .ts, .method => (["class C_" ++ f.name ++ " {", "  " ++ f.name ++ "(a) {"] ++ renderTsB 4 f.body ++ ["  }", "}"], 1)
   | .ts, .arrow => (["const " ++ f.name ++ " = (a) => {"] ++ renderTsB 2 f.body ++ ["};"], 0)
   | .ts, .asyncFn => (["async function " ++ f.name ++ "(a) {"] ++ renderTsB 2 f.body ++ ["}"], 0)
+  | .ts, .funcExpr => (["const " ++ f.name ++ " = function (a) {"] ++ renderTsB 2 f.body ++ ["};"], 0)
+  | .ts, .generator => (["function* " ++ f.name ++ "(a) {"] ++ renderTsB 2 f.body ++ ["}"], 0)
+  | .ts, .underIf => (["if (FLAG_" ++ f.name ++ ") {", "  function " ++ f.name ++ "(a) {"] ++ renderTsB 4 f.body ++ ["  }", "}"], 1)
+  | .ts, .inner => (["namespace NS_" ++ f.name ++ " {", "  export function " ++ f.name ++ "(a) {"] ++ renderTsB 4 f.body ++ ["  }", "}"], 1)
   | .ts, _ => (["function " ++ f.name ++ "(a) {"] ++ renderTsB 2 f.body ++ ["}"], 0)
   | .rs, .method => (["impl S_" ++ f.name ++ " {", "    fn " ++ f.name ++ "(&self, a: i32) {"] ++ renderRsB 8 f.body ++ ["    }", "}"], 1)
   | .rs, .asyncFn => (["async fn " ++ f.name ++ "(a: i32) {"] ++ renderRsB 4 f.body ++ ["}"], 0)
+  | .rs, .underIf => (["mod m_" ++ f.name ++ " {", "    fn " ++ f.name ++ "(a: i32) {"] ++ renderRsB 8 f.body ++ ["    }", "}"], 1)
+  | .rs, .inner => (["trait T_" ++ f.name ++ " {", "    fn " ++ f.name ++ "(&self, a: i32) {"] ++ renderRsB 8 f.body ++ ["    }", "}"], 1)
   | .rs, _ => (["fn " ++ f.name ++ "(a: i32) {"] ++ renderRsB 4 f.body ++ ["}"], 0)
 
 /-- whole file: lines, and for every function its 1-based header line -/
